@@ -19,14 +19,14 @@ theorem no_recursion_error_escapes (e : Engine) (m : Mode) (limit : Nat) (name :
   | some s => cases s <;> simp
 
 /-- What it returns are answers the query produced, in order: a prefix of the collected
-    sequence (the last one is dropped when it is the one at which the projection raised). -/
+    sequence (nothing is returned when the projection's exception escapes). -/
 theorem result_is_prefix (e : Engine) (m : Mode) (limit : Nat) (name : String) (args : List Term) (r : Option Nat) :
     (e.evaluateBounded m limit name args r).2.answers <+:
       (e.query m limit name args (match r with | some k => .raise k | none => .all)).2.answers := by
   unfold Engine.evaluateBounded
   simp only
   split
-  · exact List.dropLast_prefix _
+  · exact List.nil_prefix
   · exact List.prefix_refl _
 
 /-- The fact store and definitions of the engine are those the query left; evaluate_bounded adds
